@@ -314,3 +314,20 @@ package cisco
 //vc:  assert[C08] at "s.addChange("#1 @subCommandDeletedInsideParentMode c.subCmdOf != nil ==> devMode == c.subCmdOf.orig
 //vc:  assign after "s.addChange("#1 devMode = ite(c.subCmdOf != nil, devMode, "")
 //vc:  ensures[C08] @modeBeliefSound modeBeliefSound(s)
+
+// ---- C01/C02: fresh crypto map sequence numbers ----
+// A crypto map entry that exists only in the target gets a sequence number
+// that no entry of the device map has; static peers count up from 1, dynamic
+// entries count down from 65535, and neither counter ever moves back, so a
+// number once given (the counter is moved past it) is not given again.
+//vc:func matchCryptoMap
+//vc:  invariant[C01,C02] 2 "for _, bSeq := range slices.Sorted(maps.Keys(bSeqMap))" @countersNeverMoveBack static >= loopold(static) && dynamic <= loopold(dynamic)
+//vc:  invariant[C01,C02] 3 "for ; aSeqMap[*seq] != nil; *seq += incr" @searchMovesOutward static >= loopold(static) && dynamic <= loopold(dynamic) && ((seq == addr(static) && incr == 1) || (seq == addr(dynamic) && incr == 0 - 1))
+//vc:  assert[C01,C02] at "f(nil, bSeqL)" @sequenceNumberFreeOnDevice !(deref(seq) in aSeqMap) || aSeqMap[deref(seq)] == nil
+
+// diffASAACLs: a deleted device line that was matched with an added line (a
+// move) is removed from the lookup map: it must not be matched again by a second
+// identical added line (only remarks can be identical), which would shift the
+// position bookkeeping without a command (structural guard).
+//vc:func (*State).diffASAACLs
+//vc:  assert[C01] at "delete(delMap, p)" @deviceLineMovedOnce a != nil
